@@ -279,6 +279,12 @@ TYPES = ['int', 'int', 'bool', 'str', 'str', 'list[int]', 'dict[str,int]', 'Opti
 PRIOS = [None, 'SCREAMING_SNAKE', 'SNAKE', 'CAMEL', 'PASCAL']
 
 
+# values no documented conversion accepts for the type (non-empty: '' means "use the default" for numbers)
+JUNK = {'int': ['abc', '1x', '12 34', 'one'], 'Optional[int]': ['abc', '--1'], 'float': ['abc', '1.2.3'],
+        'list[int]': ['x,y', '1,two', '[1, "z"]'], 'dict[str,int]': ['novalue', 'a=b', 'a=1,b'],
+        'datetime': ['garbage', '2022-13-45', 'yesterday']}
+
+
 def cap(w):
     return w[0].upper() + w[1:]
 
@@ -583,8 +589,23 @@ def gen_pure(r, pid):
         c['secrets'] = [gen_file(U, cands, 'dir')]
     os0 = gen_env(U, cands, r.choice([0.02, 0.05, 0.1, 0.2]))
     inst = gen_inst(U, 0, c, cands, reload=True)
-    return {'id': pid, 'os0': os0, 'files': U.files, 'dirs': U.dirs,
-            'ops': [{'op': 'class', 'id': 0, 'cls': c}, inst]}
+    p = {'id': pid, 'os0': os0, 'files': U.files, 'dirs': U.dirs,
+         'ops': [{'op': 'class', 'id': 0, 'cls': c}, inst]}
+    if r.random() < 0.08:
+        # malformed stream: the variable the reference selects for one typed field holds junk
+        sec, dot = inst_files(p, c, inst)
+        env, amb = ref_environment(os0, sec, dot)
+        pick = []
+        for f in c['fields']:
+            rf = ref_field(env, c, inst, f)
+            if rf[0] == 'E' and len(rf[1]) == 1 and f['type'] in JUNK and rf[1][0] in os0 and not f22_field(c, inst, f) \
+                    and not any(rf[1][0] == k for fl in sec + dot for k, _ in fl):
+                pick.append((f, rf[1][0]))
+        if pick:
+            f, var = r.choice(pick)
+            os0[var] = r.choice(JUNK[f['type']])
+            p['malformed'] = {'field': f['name'], 'var': var}
+    return p
 
 
 # ----------------------------------------------------------------------------------------------
@@ -683,7 +704,10 @@ def parse_trace(s):
 # running and checking
 # ----------------------------------------------------------------------------------------------
 def strip_history(h):
-    return {'os0': h['os0'], 'files': h['files'], 'dirs': h['dirs'], 'ops': h['ops']}
+    d = {'os0': h['os0'], 'files': h['files'], 'dirs': h['dirs'], 'ops': h['ops']}
+    if h.get('malformed'):
+        d['malformed'] = h['malformed']
+    return d
 
 
 def model_ops(h):
@@ -771,6 +795,23 @@ def model_check(model_step, res, cls, o):
     return None
 
 
+def model_sources(model_step, cls, o):
+    """source-level tie only (used where values are deliberately unparseable)."""
+    env, mo = model_step['environ'], model_step['out']
+    if env is None or mo[0] == 'C':
+        return 'model crashed / has no environ'
+    refs = [ref_field(env, cls, o, f) for f in cls['fields']]
+    if mo[0] == 'M':
+        exp = [f['name'] for f, r in zip(cls['fields'], refs) if r[0] == 'M' or (f22_field(cls, o, f) and f['name'] in mo[1])]
+        return None if exp == mo[1] else 'model MissingVars%r, reference on the model environ %r' % (mo[1], exp)
+    for f, s, r in zip(cls['fields'], mo[1], refs):
+        if f22_field(cls, o, f):
+            continue
+        if not (s[0] == r[0] and (s[0] != 'E' or (s[1] in r[1] and env.get(s[1]) == s[2]))):
+            return 'field %s: model source %r, reference on the model environ %r' % (f['name'], s, r)
+    return None
+
+
 def run_payloads(ctx, payloads, workers=8):
     with cf.ThreadPoolExecutor(max_workers=workers) as ex:
         return list(ex.map(lambda p: ctx.impl('c18', p, timeout=300), payloads))
@@ -779,6 +820,7 @@ def run_payloads(ctx, payloads, workers=8):
 def check_history(ctx, h, impl, trace, pristine=None, stream='history'):
     """All ties and direct predicates of one history. trace may be None (model unavailable)."""
     res = impl['results']
+    malformed = h.get('malformed')
     if impl.get('leftover'):
         ctx.violation('temporary directory not removed', {'kind': 'history', 'history': strip_history(h)}, no_input=True)
     classes = {o['id']: o['cls'] for o in h['ops'] if o['op'] == 'class'}
@@ -807,6 +849,19 @@ def check_history(ctx, h, impl, trace, pristine=None, stream='history'):
             ctx.violation('os.environ inside the child is not what the history prescribes (harness)', where, no_input=True)
         # --- direct predicate: documented precedence on the current environment (reload only)
         nontriv = False
+        if malformed:
+            # malformed stream: the junk value must not be turned into an instance
+            ctx.hist('malformed', r.get('err') or 'ACCEPTED')
+            if 'ok' in r:
+                ctx.violation('%s: variable %s=%r selected for field %s was accepted: %s' % (
+                    cls['name'], malformed['var'], timeline[i][malformed['var']], malformed['field'], short(r)), where)
+            ctx.count(1, key=key, nontrivial=True)
+            if trace is not None and midx[i] is not None:
+                bad = model_sources(trace[0][midx[i]], cls, o)
+                if bad:
+                    ctx.disagreements_checked += 1
+                    ctx.broken_tie('%s (malformed): %s' % (stream, bad), {'history': strip_history(h), 'op_index': i})
+            continue
         if o.get('reload'):
             sec, dot = inst_files(h, cls, o)
             env, amb = ref_environment(timeline[i], sec, dot)
@@ -820,8 +875,8 @@ def check_history(ctx, h, impl, trace, pristine=None, stream='history'):
             ctx.hist('overlay', ('secrets+' if sec else '') + ('dotenv' if dot else '') or 'none')
             ctx.hist('outcome', 'MissingVars' if r.get('err') == 'MissingVars' else ('instance' if 'ok' in r else str(r.get('err'))))
             if bad:
-                if in_f22_region(cls, o) and ctx.is_open_region('F22'):
-                    ctx.hist('known_region', 'F22')
+                if in_f22_region(cls, o) and ctx.is_open_region(F22_ID):
+                    ctx.hist('known_region', F22_ID)
                 else:
                     ctx.violation('%s(_reload=True): %s' % (cls['name'], bad), where)
             if i == last_inst and pristine is not None:
@@ -830,19 +885,20 @@ def check_history(ctx, h, impl, trace, pristine=None, stream='history'):
                 if not same:
                     pbad, _ = check_outcome(pr, env, amb, cls, o)
                     if det or pbad:
-                        if in_f22_region(cls, o) and ctx.is_open_region('F22') and not det:
-                            ctx.hist('known_region', 'F22')
+                        if in_f22_region(cls, o) and ctx.is_open_region(F22_ID) and not det:
+                            ctx.hist('known_region', F22_ID)
                         else:
                             ctx.violation('history-dependent result: after the history %s, in a pristine interpreter with the '
                                           'same environment %s' % (short(r), short(pr)), where)
                     else:
                         ctx.hist('one_of_region', 'history/pristine differ admissibly')
-                ctx.traces_validated += 1
+                ctx.extra_cov['pristine_replays_compared'] = ctx.extra_cov.get('pristine_replays_compared', 0) + 1
         ctx.count(1, key=key, nontrivial=nontriv or not o.get('reload'))
         # --- tie: model trace
         if trace is not None and midx[i] is not None:
             ms = trace[0][midx[i]]
             bad = model_check(ms, r, cls, o)
+            ctx.traces_validated += 1
             if bad:
                 ctx.disagreements_checked += 1
                 ctx.broken_tie('%s: model and implementation disagree: %s' % (stream, bad),
@@ -858,6 +914,9 @@ def pristine_payload(h):
     return {'os0': timeline[last], 'files': h['files'], 'dirs': h['dirs'], 'ops': [cdef, o]}
 
 
+F21_ID = 'F21-C18-env-var-name-splice'
+F22_ID = 'F22-env-prefix-tuple-names'
+
 F21_WITNESS = {'os0': {'a"b': 'found'}, 'files': {}, 'dirs': {}, 'ops': [
     {'op': 'class', 'id': 0, 'cls': {'name': 'F21W', 'fields': [
         {'name': 'x', 'type': 'str', 'explicit': 'a"b', 'via': 'env_field', 'default': {'py': 'dflt'}}]}},
@@ -866,6 +925,12 @@ F21_WITNESS = {'os0': {'a"b': 'found'}, 'files': {}, 'dirs': {}, 'ops': [
 F22_WITNESS = {'os0': {'P_A': '1', 'P_B': '2', 'A': '10'}, 'files': {}, 'dirs': {}, 'ops': [
     {'op': 'class', 'id': 0, 'cls': {'name': 'F22W', 'prefix': 'P_', 'fields': [
         {'name': 'x', 'type': 'int', 'explicit': ['Q', 'A', 'B'], 'via': 'env_field', 'default': {'py': 0}}]}},
+    {'op': 'inst', 'cls': 0, 'reload': True, 'kwargs': {}}]}
+
+
+F13_WITNESS = {'os0': {}, 'files': {}, 'dirs': {}, 'ops': [
+    {'op': 'set', 'k': 'My-Var', 'v': 'A'}, {'op': 'set', 'k': 'myvar', 'v': 'B'},
+    {'op': 'class', 'id': 0, 'cls': {'name': 'F13W', 'fields': [{'name': 'my_var', 'type': 'str', 'default': {'py': 'dflt'}}]}},
     {'op': 'inst', 'cls': 0, 'reload': True, 'kwargs': {}}]}
 
 
@@ -886,18 +951,18 @@ def witness_fails(ctx, w):
 def run(ctx):
     quick = ctx.tier == 'quick'
     # ---- listed findings ---------------------------------------------------------------------
-    for fid, w in (('F21', F21_WITNESS), ('F22', F22_WITNESS)):
+    for fid, w in ((F21_ID, F21_WITNESS), (F22_ID, F22_WITNESS)):
         if ctx.finding(fid) is not None:
             fails, what = witness_fails(ctx, w)
             ctx.count(1, key='witness:' + fid)
             ctx.known_finding(fid, still_fails=fails)
     # ---- generate --------------------------------------------------------------------------------
     rh = ctx.sub_rng('histories')
-    hists = [gen_history(rh, 'h%d' % i, long=(not quick and i % 10 == 0)) for i in range(90 if quick else 700)]
+    hists = [gen_history(rh, 'h%d' % i, long=(not quick and i % 10 == 0)) for i in range(60 if quick else 500)]
     rp = ctx.sub_rng('pure')
-    pures = [gen_pure(rp, 'p%d' % i) for i in range(500 if quick else 5000)]
+    pures = [gen_pure(rp, 'p%d' % i) for i in range(360 if quick else 3500)]
     # pure cases run back to back in few interpreters: one long history per chunk
-    chunk = 125 if quick else 250
+    chunk = 120 if quick else 250
     batches = []
     for k in range(0, len(pures), chunk):
         files, dirs, ops = {}, {}, []
@@ -964,7 +1029,10 @@ def replay(ctx, obj):
                 line = 'op %d %s(%s): %s' % (i, cls['name'], 'reload' if o.get('reload') else 'no reload', short(r))
                 if not r.get('environ_same'):
                     line += '  [os.environ CHANGED]'; ok = False
-                if o.get('reload'):
+                if h.get('malformed'):
+                    if 'ok' in r:
+                        line += '  [junk value %r accepted]' % (h['malformed'],); ok = False
+                elif o.get('reload'):
                     sec, dot = inst_files(h, cls, o)
                     env, amb = ref_environment(timeline[i], sec, dot)
                     bad, _ = check_outcome(r, env, amb, cls, o)
@@ -980,9 +1048,20 @@ def replay(ctx, obj):
             pr = ctx.impl('c18', pristine_payload(sub))['results'][-1]
             print('pristine replay of op %d: %s' % (obj['op_index'], short(pr)))
         return bool(ok)
-    if obj.get('finding') in ('F21', 'F22'):
-        fails, what = witness_fails(ctx, F21_WITNESS if obj['finding'] == 'F21' else F22_WITNESS)
+    if obj.get('finding') in (F21_ID, F22_ID, 'F21', 'F22'):
+        fails, what = witness_fails(ctx, F21_WITNESS if obj['finding'].startswith('F21') else F22_WITNESS)
         print('witness %s: %s' % (obj['finding'], what or 'behaves as documented'))
         return not fails
+    if obj.get('finding') == 'F13':
+        # delete whichever variable won the first time; the survivor must be found
+        first = ctx.impl('c18', F13_WITNESS)['results'][-1]
+        won = (first.get('ok') or {}).get('fields', {}).get('my_var', {}).get('str')
+        loser = {'A': 'My-Var', 'B': 'myvar'}.get(won)
+        if loser is None:
+            print('first instantiate: %s' % short(first))
+            return False
+        h = json.loads(json.dumps(F13_WITNESS))
+        h['ops'] += [{'op': 'del', 'k': loser}, {'op': 'inst', 'cls': 0, 'reload': True, 'kwargs': {}}]
+        return replay(ctx, {'kind': 'history', 'history': h})
     print('replay object names a broken tie, not an input: %s' % json.dumps(obj)[:1500])
     return False
